@@ -107,6 +107,8 @@ def run_sync(rec, cfg, given, calls, plan):
             api.ctx.walk = False
             if c == "enter":
                 s.__enter__()
+            elif c == "exit":
+                s.__exit__(None, None, None)
             elif c == "refresh":
                 s.refresh()
             elif c == "get":
@@ -135,6 +137,8 @@ async def run_async(rec, cfg, given, calls, plan):
             if c == "enter":
                 op = "refresh"
                 await s.__aenter__()
+            elif c == "exit":
+                await s.__aexit__(None, None, None)
             elif c == "refresh":
                 op = "refresh"
                 await s.refresh()
@@ -201,6 +205,16 @@ def lost_discovery_histories(rec, users, thorough, base_idx=900):
                 for k in lost:
                     plan[k] = "drop"
                 hist.append((auth, priv, kt, calls, plan, base_idx + ai * 20 + ci * 5 + len(lost) + lost[0]))
+        # the session leaves its context and is used again (entered again, or simply used: the object stays valid): whatever leaving
+        # and re-entering do underneath, every later request is still the configured user's
+        for ci, calls in enumerate([["enter", "get", "exit", "enter", "get", "get"], ["enter", "get", "exit", "get", "get_many"]]):
+            nreq = sum(2 if c == "enter" else 0 if c == "exit" else 1 for c in calls) + 2
+            for lost in ([], [0]):
+                plan = [("reply", "A17", (i + 2) % len(CLOCKS)) for i in range(nreq)]
+                for k in lost:
+                    plan[k] = "drop"
+                hist.append((auth, priv, kt, calls, plan, base_idx + 60 + ai * 8 + ci * 2 + len(lost)))
+                hist.append((auth, priv, kt, calls, plan, base_idx + 61 + ai * 8 + ci * 2 + len(lost)))       # (the other client / engine_id form)
     if not thorough:
         hist = [h for k, h in enumerate(hist) if (k + SEED) % 2 == 0]
     runs = []
